@@ -166,7 +166,7 @@ class Gen:
         if k == "int":
             return rng.choice([0, 1, -1, 5, 255, 256, -128, 2147483647, -2147483648, rng.randint(-100000, 100000)])
         if k == "real":
-            return struct.pack("<d", rng.choice([0.0, 1.5, -2.25, 3.3e10, 1e-300, float(rng.randint(-1000, 1000)) / 7]))
+            return struct.pack("<d", rng.choice([0.0, -0.0, 0.0, -0.0, 1.5, -2.25, 3.3e10, 1e-300, float(rng.randint(-1000, 1000)) / 7]))
         return rng.randint(0, k[1] - 1)
 
     def rand_wave(self, nsteps):
